@@ -18,25 +18,32 @@ Definition gstep (progs : tid -> list op) (s : state) (l : label) : state := if 
 Fixpoint grun (progs : tid -> list op) (s : state) (ls : list label) : state :=
   match ls with [] => s | l :: r => grun progs (gstep progs s l) r end.
 
-(* the thread a vCPU is switching away from still belongs to that vCPU (or has finished), and exists *)
-Definition PH (s : state) : Prop :=
-  forall v f, pend_from (v_pend (s_vc s v)) = Some f ->
-    created (s_th s f) = true /\ (g_finished (s_th s f) = 1 \/ th_vcpu (s_th s f) = v).
+(* the thread a vCPU is switching away from exists and: (context switch) still belongs to that vCPU and has not
+   finished; (die) has finished *)
+Definition pend_okP (s : state) (v : nat) (p : pending) : Prop :=
+  match p with
+  | PSwitch f _ => created (s_th s f) = true /\ th_vcpu (s_th s f) = v /\ g_finished (s_th s f) = 0
+  | PDie f => created (s_th s f) = true /\ g_finished (s_th s f) = 1
+  | PNone => True
+  end.
+Definition PH (s : state) : Prop := forall v, pend_okP s v (v_pend (s_vc s v)).
 
+Lemma pend_okP_rel : forall s s' v p, Nrel s s' -> pend_okP s v p -> pend_okP s' v p.
+Proof.
+  intros s s' v p (Ht & _) H. destruct p as [|f d|f]; auto; cbn in *; destruct (Ht f) as (_ & _ & c & d0 & e); rewrite e, ?c, d0; auto.
+Qed.
 Lemma PH_frame : forall s s', Nrel s s' -> PH s -> PH s'.
 Proof.
-  intros s s' (Ht & Hv & _) P v f E. destruct (Hv v) as [_ Ep]. rewrite Ep in E.
-  destruct (P v f E) as [a b]. destruct (Ht f) as (_ & _ & c & d & e). rewrite e, c, d. auto.
+  intros s s' R P v. destruct R as (Ht & Hv & Hc). destruct (Hv v) as [_ Ep]. rewrite Ep.
+  apply (pend_okP_rel s); [split; [exact Ht|split; [exact Hv|exact Hc]]|apply P].
 Qed.
 
 (* setting the pending action of v *)
-Lemma PH_pend : forall s v (g : vcpu -> vcpu) p, PH s ->
-  (forall f, pend_from p = Some f -> created (s_th s f) = true /\ (g_finished (s_th s f) = 1 \/ th_vcpu (s_th s f) = v)) ->
-  (forall x, v_pend (g x) = p) -> PH (modvc s v g).
+Lemma PH_pend : forall s v (g : vcpu -> vcpu) p, PH s -> pend_okP s v p -> (forall x, v_pend (g x) = p) -> PH (modvc s v g).
 Proof.
-  intros s v g p P Hp Hg v0 f. rewrite vc_modvc, th_modvc. destruct (Nat.eqb v0 v) eqn:E.
-  - apply Nat.eqb_eq in E. subst. rewrite Hg. apply Hp.
-  - apply P.
+  intros s v g p P Hp Hg v0. rewrite vc_modvc. destruct (Nat.eqb v0 v) eqn:E.
+  - apply Nat.eqb_eq in E. subst. rewrite Hg. destruct p; auto.
+  - generalize (P v0). destruct (v_pend (s_vc s v0)); auto.
 Qed.
 
 Lemma Nrel_yield_pre : forall s v c n rest (ce : bool), Inv1 s -> head_run s v -> v_runq (s_vc s v) = c :: n :: rest ->
@@ -59,19 +66,22 @@ Proof.
   eapply created_of_state; [apply (Hr c _ Hq)|discriminate].
 Qed.
 
-Lemma PH_yield : forall s v ce d, Inv1 s -> PH s -> head_run s v -> PH (do_yield s v ce d).
+Lemma run_fin0 : forall s c, Inv2 s -> th_state (s_th s c) = RUNNING -> g_finished (s_th s c) = 0.
+Proof. intros s c I2 E. destruct (I2 c) as (a & _). rewrite a, E. reflexivity. Qed.
+
+Lemma PH_yield : forall s v ce d, Inv1 s -> Inv2 s -> PH s -> head_run s v -> PH (do_yield s v ce d).
 Proof.
-  intros s v ce d I1 P Hr. unfold do_yield, getvc.
+  intros s v ce d I1 I2 P Hr. unfold do_yield, getvc.
   destruct (v_runq (s_vc s v)) as [|c [|n rest]] eqn:Hq; try (apply (PH_frame s); [apply Nrel_same; reflexivity|auto]).
   pose proof (Nrel_yield_pre s v c n rest ce I1 Hr Hq) as R.
   destruct (head_facts s v c _ I1 Hr Hq) as [Cc Vc].
   eapply (PH_pend _ v _ (PSwitch c d)); [apply (PH_frame s); eauto| |reflexivity].
-  intros f E. inversion E; subst f. destruct R as (Rt & _). destruct (Rt c) as (_ & _ & a & _ & b). rewrite a, b. auto.
+  apply (pend_okP_rel s); auto. cbn. repeat split; auto. apply run_fin0; auto. apply (Hr c _ Hq).
 Qed.
 
-Lemma PH_sleep : forall s v exp wq d, Inv1 s -> PH s -> head_run s v -> PH (do_sleep s v exp wq d).
+Lemma PH_sleep : forall s v exp wq d, Inv1 s -> Inv2 s -> PH s -> head_run s v -> PH (do_sleep s v exp wq d).
 Proof.
-  intros s v exp wq d I1 P Hr. unfold do_sleep, getvc.
+  intros s v exp wq d I1 I2 P Hr. unfold do_sleep, getvc.
   destruct (v_runq (s_vc s v)) as [|c [|n rest]] eqn:Hq; try (apply (PH_frame s); [apply Nrel_same; reflexivity|auto]).
   assert (Cn : created (s_th s n) = true). { apply (head_created s v c (n :: rest) I1 Hq). rewrite !cnt_cons, Nat.eqb_refl. lia. }
   destruct (head_facts s v c _ I1 Hr Hq) as [Cc Vc].
@@ -86,18 +96,31 @@ Proof.
   match goal with |- PH (if ?b then set_s_tie ?X true else ?X) =>
     assert (IX : PH X); [| destruct b; auto; try (apply (PH_frame X); [apply Nrel_same; reflexivity|auto])] end.
   eapply (PH_pend _ v _ (PSwitch c d)); [apply (PH_frame s); eauto| |reflexivity].
-  intros f E. inversion E; subst f. destruct R3 as (Rt & _). destruct (Rt c) as (_ & _ & a & _ & b). rewrite a, b. auto.
+  apply (pend_okP_rel s); auto. cbn. repeat split; auto. apply run_fin0; auto. apply (Hr c _ Hq).
 Qed.
 
-Lemma PH_die : forall s v rv s', Inv1 s -> Inv2 s -> PH s -> head_run s v -> do_die s v rv = Some s' -> PH s'.
+(* no other vCPU is switching away from the CURRENT thread of v *)
+Lemma no_pend_on_head : forall s v c rest, Inv1 s -> Inv2 s -> PH s -> head_run s v -> v_runq (s_vc s v) = c :: rest ->
+  v_pend (s_vc s v) = PNone -> forall v0, pend_from (v_pend (s_vc s v0)) <> Some c.
 Proof.
-  intros s v rv s' I1 I2 P Hr. unfold do_die, getvc, getth.
+  intros s v c rest I1 I2 P Hr Hq Pn v0 E.
+  destruct (head_facts s v c _ I1 Hr Hq) as [Cc Vc].
+  generalize (P v0). destruct (v_pend (s_vc s v0)) as [|f d|f] eqn:Pv; cbn in E; try discriminate; inversion E; subst f; cbn.
+  - intros (_ & a & _). assert (v0 = v) by congruence. subst. congruence.
+  - intros (_ & a). rewrite (run_fin0 s c I2 (Hr c _ Hq)) in a. discriminate.
+Qed.
+
+Lemma PH_die : forall s v rv s', Inv1 s -> Inv2 s -> PH s -> head_run s v -> v_pend (s_vc s v) = PNone ->
+  do_die s v rv = Some s' -> PH s'.
+Proof.
+  intros s v rv s' I1 I2 P Hr Pn. unfold do_die, getvc, getth.
   destruct (v_runq (s_vc s v)) as [|c [|n rest]] eqn:Hq;
     try (intro H; inversion H; subst; apply (PH_frame s); [apply Nrel_same; reflexivity|auto]).
   cbv zeta. match goal with |- (if negb ?b then _ else _) = _ -> _ => destruct b end; cbn [negb]; [|discriminate].
   intro H. inversion H; subst s'; clear H.
   assert (Cn : created (s_th s n) = true). { apply (head_created s v c (n :: rest) I1 Hq). rewrite !cnt_cons, Nat.eqb_refl. lia. }
   destruct (head_facts s v c _ I1 Hr Hq) as [Cc Vc].
+  pose proof (no_pend_on_head s v c _ I1 I2 P Hr Hq Pn) as Np.
   set (s1 := match th_joiners (s_th s c) with j :: _ => wake s v j (-1) | [] => s end).
   assert (R1 : Nrel s s1).
   { unfold s1. destruct (th_joiners (s_th s c)) as [|j js] eqn:Ej; [apply Nrel_refl|].
@@ -107,25 +130,29 @@ Proof.
   assert (R2 : Nrel s s2).
   { apply (Nrel_trans s s1); auto. apply Nrel_switch_in. rewrite (created_rel s s1 n R1). exact Cn. }
   clearbody s2. clear s1 R1.
-  pose proof (PH_frame s s2 R2 P) as P2. destruct R2 as (Rt & _).
+  pose proof (PH_frame s s2 R2 P) as P2. destruct R2 as (Rt & Rv & _).
   destruct (Rt c) as (_ & _ & a & a4 & b).
-  assert (Fin : g_finished (s_th s2 c) = 0). { rewrite a4. destruct (I2 c) as (x & _). rewrite x, (Hr c _ Hq). reflexivity. }
-  (* c becomes DONE / finished: every pending reference to c stays valid; then v's pending action is PDie c *)
+  assert (Fin : g_finished (s_th s2 c) = 0). { rewrite a4. apply run_fin0; auto. apply (Hr c _ Hq). }
   match goal with |- PH (modvc (modth s2 c ?f) v ?g) => assert (P3 : PH (modth s2 c f)) end.
-  { intros v0 f0 E. rewrite vc_modth in E. destruct (P2 v0 f0 E) as [x y]. rewrite th_modth.
-    destruct (Nat.eqb f0 c) eqn:E0; [|split; auto]. unfold created. cbn. split; auto; try (left; rewrite Fin; reflexivity). }
+  { intro v0. rewrite vc_modth. generalize (P2 v0). destruct (Rv v0) as [_ Ep].
+    destruct (v_pend (s_vc s2 v0)) as [|f0 d0|f0] eqn:Pv; auto; unfold pend_okP; rewrite th_modth;
+      (destruct (Nat.eqb f0 c) eqn:E0; [apply Nat.eqb_eq in E0; subst f0; exfalso; apply (Np v0); rewrite <- Ep; reflexivity|auto]). }
   eapply (PH_pend _ v _ (PDie c)); [exact P3| |reflexivity].
-  intros f E. inversion E; subst f. rewrite th_modth, Nat.eqb_refl. unfold created. cbn. split; auto; try (left; rewrite Fin; reflexivity).
+  unfold pend_okP. rewrite th_modth, Nat.eqb_refl. unfold created. cbn. rewrite Fin. auto.
 Qed.
 
 Lemma PH_create : forall s v k jn ws, PH s -> th_state (s_th s k) = NOTCREATED -> PH (do_create s v k jn ws).
 Proof.
-  intros s v k jn ws P En. unfold do_create, getth. intros v0 f E.
-  rewrite vc_modvc in E. rewrite th_modvc. cbn [s_th set_s_th].
-  assert (E' : pend_from (v_pend (s_vc s v0)) = Some f). { destruct (Nat.eqb v0 v) eqn:X; auto. apply Nat.eqb_eq in X. subst. exact E. }
-  destruct (P v0 f E') as [a b].
-  assert (f <> k). { intro. subst. unfold created in a. rewrite En in a. discriminate. }
-  rewrite updp_neq by auto. auto.
+  intros s v k jn ws P En. unfold do_create, getth. intro v0.
+  assert (Nk : forall f, created (s_th s f) = true -> f <> k).
+  { intros f C E. subst. unfold created in C. rewrite En in C. discriminate. }
+  rewrite vc_modvc.
+  assert (X : pend_okP (modvc (set_s_th s (updp (s_th s) k
+              (mkT READY v KUser 0 0 false None (th_joiners (s_th s k)) jn ws LFree 0 0 0 false true 0 0 0 0 0))) v
+              (fun x => set_v_nthreads (set_v_runq x (v_runq x ++ [k])) (v_nthreads x + 1))) v0 (v_pend (s_vc s v0))).
+  { generalize (P v0). destruct (v_pend (s_vc s v0)) as [|f d|f]; auto; cbn; intros H;
+      (assert (f <> k) by (apply Nk; tauto)); rewrite updp_neq by auto; auto. }
+  destruct (Nat.eqb v0 v) eqn:E; auto. apply Nat.eqb_eq in E. subst. exact X.
 Qed.
 
 Lemma PH_migrate : forall s v t u s' b, Inv2 s -> PH s -> pend_from (v_pend (s_vc s v)) <> Some t ->
@@ -138,14 +165,19 @@ Proof.
   assert (Es : th_state (s_th s t) = READY) by (destruct (th_state (s_th s t)); try discriminate; reflexivity).
   assert (Ev : th_vcpu (s_th s t) = v) by (match goal with H : Nat.eqb (th_vcpu _) v = true |- _ => now apply Nat.eqb_eq in H end).
   assert (Fin : g_finished (s_th s t) = 0). { destruct (I2 t) as (a & _). rewrite a, Es. reflexivity. }
-  intros v0 f E. rewrite !th_modvc, th_modth.
-  assert (E' : pend_from (v_pend (s_vc s v0)) = Some f).
-  { revert E. rewrite !vc_modvc, vc_modth. destruct (Nat.eqb v0 u) eqn:X1; [apply Nat.eqb_eq in X1; subst v0|].
-    - destruct (Nat.eqb u v) eqn:X2; [apply Nat.eqb_eq in X2; subst|]; cbn; auto.
-    - destruct (Nat.eqb v0 v) eqn:X2; [apply Nat.eqb_eq in X2; subst|]; cbn; auto. }
-  destruct (P v0 f E') as [a b0].
-  destruct (Nat.eqb f t) eqn:Eft; auto. apply Nat.eqb_eq in Eft. subst f. exfalso.
-  destruct b0 as [b0|b0]; [lia|]. rewrite Ev in b0. subst v0. contradiction.
+  assert (No : forall v0, pend_from (v_pend (s_vc s v0)) <> Some t).
+  { intros v0 E. generalize (P v0). destruct (v_pend (s_vc s v0)) as [|f d|f] eqn:Pv; cbn in E; try discriminate; inversion E; subst f; cbn.
+    - intros (_ & a & _). assert (v0 = v) by congruence. subst. apply Np. rewrite Pv. reflexivity.
+    - intros (_ & a). lia. }
+  intro v0.
+  assert (Ep : v_pend (s_vc (modvc (modvc (modth s t (fun x => set_th_vcpu (set_th_state x STANDBY) u)) v
+                 (fun x => set_v_nthreads (set_v_runq x (remove_tid t (v_runq x))) (v_nthreads x - 1))) u
+                 (fun x => set_v_nthreads (set_v_standby x (v_standby x ++ [t])) (v_nthreads x + 1))) v0) = v_pend (s_vc s v0)).
+  { rewrite !vc_modvc, vc_modth. destruct (Nat.eqb v0 u) eqn:X1; [apply Nat.eqb_eq in X1; subst v0|].
+    - destruct (Nat.eqb u v) eqn:X2; [apply Nat.eqb_eq in X2; subst|]; reflexivity.
+    - destruct (Nat.eqb v0 v) eqn:X2; [apply Nat.eqb_eq in X2; subst|]; reflexivity. }
+  rewrite Ep. generalize (P v0) (No v0). destruct (v_pend (s_vc s v0)) as [|f d|f]; auto; unfold pend_okP, pend_from; intros HH NN;
+    rewrite !th_modvc, th_modth; (destruct (Nat.eqb f t) eqn:Eft; [apply Nat.eqb_eq in Eft; subst; congruence|auto]).
 Qed.
 
 Lemma PH_steal : forall s v u t, Inv1 s -> Inv2 s -> PH s -> steal_ok s (LSteal v u t) = true -> PH (do_steal s v u t).
@@ -157,15 +189,18 @@ Proof.
             PH (modvc (modvc (modth s0 t (fun x => set_th_vcpu x v)) u (fun x => set_v_nthreads x (v_nthreads x - 1)))
                         v (fun x => set_v_nthreads (set_v_runq x (v_runq x ++ [t])) (v_nthreads x + 1)))).
   { intros s0 Et Ep L Eu. destruct (live_facts s t I2 L) as [Cr Fin].
-    intros v0 f E. rewrite !th_modvc, th_modth, Et.
-    assert (E' : pend_from (v_pend (s_vc s v0)) = Some f).
-    { revert E. rewrite !vc_modvc, vc_modth. destruct (Nat.eqb v0 v) eqn:X1; [apply Nat.eqb_eq in X1; subst v0|].
-      - destruct (Nat.eqb v u) eqn:X2; [apply Nat.eqb_eq in X2; subst|]; cbn; rewrite Ep; auto.
-      - destruct (Nat.eqb v0 u) eqn:X2; [apply Nat.eqb_eq in X2; subst|]; cbn; rewrite Ep; auto. }
-    destruct (P v0 f E') as [a b0].
-    destruct (Nat.eqb f t) eqn:Eft; auto. apply Nat.eqb_eq in Eft. subst f. exfalso.
-    destruct b0 as [b0|b0]; [lia|]. rewrite Eu in b0. subst v0.
-    cbn in G. rewrite E' in G. rewrite Nat.eqb_refl in G. discriminate. }
+    assert (No : forall v0, pend_from (v_pend (s_vc s v0)) <> Some t).
+    { intros v0 E. generalize (P v0). destruct (v_pend (s_vc s v0)) as [|f d|f] eqn:Pv; cbn in E; try discriminate; inversion E; subst f; cbn.
+      - intros (_ & a & _). assert (v0 = u) by congruence. subst. cbn in G. rewrite Pv in G. cbn in G. rewrite Nat.eqb_refl in G. discriminate.
+      - intros (_ & a). lia. }
+    intro v0.
+    assert (Epp : v_pend (s_vc (modvc (modvc (modth s0 t (fun x => set_th_vcpu x v)) u (fun x => set_v_nthreads x (v_nthreads x - 1)))
+                        v (fun x => set_v_nthreads (set_v_runq x (v_runq x ++ [t])) (v_nthreads x + 1))) v0) = v_pend (s_vc s v0)).
+    { rewrite !vc_modvc, vc_modth. destruct (Nat.eqb v0 v) eqn:X1; [apply Nat.eqb_eq in X1; subst v0|].
+      - destruct (Nat.eqb v u) eqn:X2; [apply Nat.eqb_eq in X2; subst|]; cbn; apply Ep.
+      - destruct (Nat.eqb v0 u) eqn:X2; [apply Nat.eqb_eq in X2; subst|]; cbn; apply Ep. }
+    rewrite Epp. generalize (P v0) (No v0). destruct (v_pend (s_vc s v0)) as [|f d|f]; auto; unfold pend_okP, pend_from; intros HH NN;
+      rewrite !th_modvc, th_modth, Et; (destruct (Nat.eqb f t) eqn:Eft; [apply Nat.eqb_eq in Eft; subst; congruence|auto]). }
   destruct (mem_tid t (v_standby (s_vc s u))) eqn:M1.
   - apply mem_cnt in M1. destruct (in_standby_facts s t u (i_placed _ I1 t u) M1) as (l1 & l2 & _).
     apply Main; auto. intro y. rewrite vc_modvc. destruct (Nat.eqb y u) eqn:E; [apply Nat.eqb_eq in E; subst y|]; reflexivity.
@@ -176,7 +211,7 @@ Proof.
 Qed.
 
 Lemma PH_clear : forall s v, PH s -> PH (modvc s v (fun x => set_v_pend x PNone)).
-Proof. intros. eapply (PH_pend s v _ PNone); auto. intros f E. discriminate. Qed.
+Proof. intros. eapply (PH_pend s v _ PNone); auto. exact Logic.I. Qed.
 
 Lemma PH_exec_pend : forall s v, Inv2 s -> PH s -> PH (exec_pend s v).
 Proof.
@@ -193,9 +228,9 @@ Proof.
     destruct (th_joinable _); (eapply PH_frame; [|exact P0]); apply Nrel_modth; nsame.
 Qed.
 
-Lemma PH_join_check : forall s v c j, Inv1 s -> PH s -> head_run s v -> PH (join_check s v c j).
+Lemma PH_join_check : forall s v c j, Inv1 s -> Inv2 s -> PH s -> head_run s v -> PH (join_check s v c j).
 Proof.
-  intros s v c j I1 P Hr. unfold join_check, getth.
+  intros s v c j I1 I2 P Hr. unfold join_check, getth.
   destruct (tstate_eqb _ NOTCREATED). { apply (PH_frame s); [apply Nrel_same; reflexivity|auto]. }
   destruct (negb (th_joinable _)). { eapply PH_frame; [apply Nrel_ret|auto]. }
   destruct (negb _); auto.
@@ -204,6 +239,7 @@ Proof.
   - destruct (negb _); auto.
     apply PH_sleep.
     + apply inv1_setk. apply inv1_neutral; [intro th; repeat split | auto].
+    + apply inv2_setk. apply inv2_neutral; [intro th; repeat split | auto].
     + eapply PH_frame; [apply Nrel_setk|]. eapply PH_frame; [|exact P]. apply Nrel_modth. nsame.
     + unfold setk. apply head_run_neutral; [intro th; repeat split|]. apply head_run_neutral; [intro th; repeat split | auto].
 Qed.
@@ -217,13 +253,13 @@ Proof.
   destruct o as [d| |j e|j jn ws|j| | |j|j u].
   - destruct (th_k (s_th s c)) as [|[|k]].
     + destruct (expired _ _).
-      * apply PH_yield; [now apply inv1_setk|pframe; auto|hr_n].
-      * destruct (lock_free _); auto. apply PH_sleep; [now apply inv1_setk|pframe; auto|hr_n].
+      * apply PH_yield; [now apply inv1_setk|now apply inv2_setk|pframe; auto|hr_n].
+      * destruct (lock_free _); auto. apply PH_sleep; [now apply inv1_setk|now apply inv2_setk|pframe; auto|hr_n].
     + pose proof (Nrel_sen s c) as X. destruct (set_error_number s c) as [[s1 r] e]. cbn in X.
       pframe. eapply PH_frame; eauto.
     + destruct (Z.eqb _ 0); pframe; auto.
   - destruct (th_k (s_th s c)).
-    + apply PH_yield; [now apply inv1_setk|pframe; auto|hr_n].
+    + apply PH_yield; [now apply inv1_setk|now apply inv2_setk|pframe; auto|hr_n].
     + pframe; auto.
   - destruct (alive progs s j); [|pframe; auto].
     destruct (do_interrupt s v j e) as [s1|] eqn:D; auto.
@@ -243,7 +279,7 @@ Proof.
     destruct (negb _) eqn:G; [pframe; auto|].
     destruct (Nat.eqb u v); [pframe; auto|].
     destruct (Nat.eqb j c) eqn:Ejc.
-    { apply PH_yield; [now apply inv1_setk|pframe; auto|hr_n]. }
+    { apply PH_yield; [now apply inv1_setk|now apply inv2_setk|pframe; auto|hr_n]. }
     destruct (negb (Nat.eqb (th_vcpu (s_th s j)) v)); [pframe; auto|].
     destruct (negb (tstate_eqb (th_state (s_th s j)) READY)); [pframe; auto|].
     destruct (do_migrate s v j u) as [[s1 [|]]|] eqn:M; [| |exact P];
@@ -261,7 +297,7 @@ Proof.
   destruct (th_kind (s_th s c)) eqn:Ek.
   - destruct (nth_error _ _); [now apply PH_exec_op|].
     destruct (th_k (s_th s c)).
-    + destruct (lock_free _); auto. apply PH_sleep; [now apply inv1_setk|pframe; auto|hr_n].
+    + destruct (lock_free _); auto. apply PH_sleep; [now apply inv1_setk|now apply inv2_setk|pframe; auto|hr_n].
     + pose proof (Nrel_sen s c) as X. destruct (set_error_number s c) as [[s1 r] e]. cbn in X.
       pframe. eapply PH_frame; eauto.
   - destruct rest; auto. apply PH_yield; auto.
@@ -302,9 +338,9 @@ Qed.
 
 Lemma PH_init : forall nv n flags t0, PH (init_state nv n flags t0).
 Proof.
-  intros nv n flags t0 v f. unfold init_state. cbn [s_vc]. destruct (init_vcpu_cases nv n flags v) as [(V1 & _)|[V1 E]].
-  - unfold init_vcpu. assert (Nat.ltb v nv = true) as -> by (now apply Nat.ltb_lt). cbn. discriminate.
-  - rewrite E. cbn. discriminate.
+  intros nv n flags t0 v. unfold init_state. cbn [s_vc]. destruct (init_vcpu_cases nv n flags v) as [(V1 & _)|[V1 E]].
+  - unfold init_vcpu. assert (Nat.ltb v nv = true) as -> by (now apply Nat.ltb_lt). exact Logic.I.
+  - rewrite E. exact Logic.I.
 Qed.
 
 (* ---- stack_exclusive_guarded ------------------------------------------------------------------ *)
@@ -319,33 +355,22 @@ Proof.
   { intros y x C. unfold cur, getvc in C. destruct (v_runq (s_vc s y)) as [|a r] eqn:Q; [discriminate|]. inversion C; subst a.
     assert (H1 : cnt x (v_runq (s_vc s y)) >= 1) by (rewrite Q; apply cnt_head).
     destruct (in_runq_facts s x y (i_placed _ I1 x y) H1) as (a1 & a2 & _). auto. }
-  assert (PendF : forall y x, pend_from (v_pend (s_vc s y)) = Some x ->
-            (v_pend (s_vc s y) = PDie x /\ live (s_th s x) = false) \/ (live (s_th s x) = true /\ th_vcpu (s_th s x) = y) \/
-            (live (s_th s x) = false /\ g_finished (s_th s x) = 1)).
-  { intros y x E. destruct (P y x E) as [a [b|b]].
-    - right. right. split; auto. destruct (I2 x) as (z & _). rewrite z in b. unfold live.
-      destruct (tstate_eqb (th_state (s_th s x)) DONE); [apply andb_false_r|discriminate].
-    - destruct (live (s_th s x)) eqn:L; [right; left; auto|].
-      right. right. split; auto. unfold live in L. unfold created in a. rewrite a in L. cbn in L.
-      apply negb_false_iff in L. destruct (I2 x) as (z & _). rewrite z, L. reflexivity. }
   unfold phys, getvc.
-  destruct (pend_from (v_pend (s_vc s v))) as [f|] eqn:Ev; destruct (pend_from (v_pend (s_vc s v'))) as [f'|] eqn:Ev'.
-  - (* both switching away from t *)
-    destruct (v_pend (s_vc s v)) as [|a d|a] eqn:Pv; cbn in Ev; try discriminate; inversion Ev; subst a;
-    destruct (v_pend (s_vc s v')) as [|a' d'|a'] eqn:Pv'; cbn in Ev'; try discriminate; inversion Ev'; subst a';
-    intros H1 H2; inversion H1; inversion H2; subst.
-    all: try (destruct (l_die _ IL _ _ Pv) as (_ & _ & _ & U); symmetry; apply U; assumption).
-    all: try (destruct (l_die _ IL _ _ Pv') as (_ & _ & _ & U); apply U; assumption).
-    + (* PSwitch / PSwitch *)
-      assert (E1 : pend_from (v_pend (s_vc s v)) = Some t) by (rewrite Pv; reflexivity).
-      assert (E2 : pend_from (v_pend (s_vc s v')) = Some t) by (rewrite Pv'; reflexivity).
-      destruct (P v t E1) as [_ [b1|b1]], (P v' t E2) as [_ [b2|b2]]; try congruence.
-      all: admit.
-    + admit.
-    + admit.
-  - admit.
-  - admit.
-  - (* both executing their CURRENT thread *)
-    destruct (v_pend (s_vc s v)); cbn in Ev; try discriminate. destruct (v_pend (s_vc s v')); cbn in Ev'; try discriminate.
-    intros H1 H2. destruct (CurF v t H1) as [_ a], (CurF v' t H2) as [_ b]. congruence.
-Admitted.
+  generalize (P v) (P v').
+  destruct (v_pend (s_vc s v)) as [|f d|f] eqn:Pv; destruct (v_pend (s_vc s v')) as [|f' d'|f'] eqn:Pv'; cbn;
+    intros A B H1 H2; try (inversion H1; subst f); try (inversion H2; subst f').
+  - destruct (CurF v t H1) as [_ a], (CurF v' t H2) as [_ b]. congruence.
+  - destruct (CurF v t H1) as [_ a]. destruct B as (_ & b & _). congruence.
+  - destruct (CurF v t H1) as [a _]. destruct B as (_ & b). destruct (live_facts s t I2 a) as [_ c]. lia.
+  - destruct (CurF v' t H2) as [_ a]. destruct A as (_ & b & _). congruence.
+  - destruct A as (_ & a & _), B as (_ & b & _). congruence.
+  - destruct A as (_ & _ & a), B as (_ & b). lia.
+  - destruct (CurF v' t H2) as [a _]. destruct A as (_ & b). destruct (live_facts s t I2 a) as [_ c]. lia.
+  - destruct A as (_ & a), B as (_ & _ & b). lia.
+  - destruct (l_die _ IL _ _ Pv) as (_ & _ & _ & U). symmetry. apply U. exact Pv'.
+Qed.
+
+(* the guard is exactly what the F23 witness violates *)
+Example f23_witness_violates_guard :
+  steal_ok (run f20_progs (init_state 2 3 f20_flags 1000) (firstn 8 f20_schedule)) (LSteal 1 0 2) = false.
+Proof. vm_compute. reflexivity. Qed.
